@@ -72,6 +72,14 @@ func c01mRun(c *Ctx, r *zsimrt.Run) {
 			L.Stdin = txt
 		}
 		L.Files[f] = txt
+		if r.Chance("m-broadcast", 1, 3) {
+			// merges (override files, extends) meet the mutated value only if the other side says something about
+			// the same attribute: give every entry of the same section, in every file, the same value
+			if n := broadcastAttr(L, files, f, desc); n > 0 {
+				c.Count("mutation-broadcasts", 1)
+				desc += "+broadcast"
+			}
+		}
 		L.Features = append(L.Features, "mut:"+fileClass(f)+":"+desc)
 		c.Count("mutation:"+strings.SplitN(desc, "@", 2)[0], 1)
 		c.Count("mutated-file:"+fileClass(f), 1)
@@ -182,8 +190,14 @@ func mutateYAML(r *zsimrt.Run, txt string) (string, string, bool) {
 		replace(yscalar("!!int", []string{"12", "-1", "0", "99999999999999999999", "0x10"}[r.Draw("m-int", 5)]))
 		desc = "int"
 	case 3:
-		replace(yscalar("!!float", []string{"1.5", ".inf", ".nan", "1e400"}[r.Draw("m-float", 4)]))
-		desc = "float"
+		if r.Chance("m-timestamp", 1, 2) {
+			// a scalar yaml.v3 decodes to time.Time (a JSON schema sees a string), or to bytes
+			replace([]*yaml.Node{yscalar("!!timestamp", "2001-12-14"), yscalar("!!timestamp", "2001-12-14T21:59:43Z"), yscalar("!!binary", "aGVsbG8=")}[r.Draw("m-ts", 3)])
+			desc = "timestamp"
+		} else {
+			replace(yscalar("!!float", []string{"1.5", ".inf", ".nan", "1e400"}[r.Draw("m-float", 4)]))
+			desc = "float"
+		}
 	case 4:
 		replace(strNode([]string{"str", "", "a:b:c", "${UNSET?err}", "$", "1", "true", "service:nosuch", "../../..", "~/x", "a b 'c", "\x00"}[r.Draw("m-str", 12)]))
 		desc = "string"
@@ -191,7 +205,11 @@ func mutateYAML(r *zsimrt.Run, txt string) (string, string, bool) {
 		replace(seqNode())
 		desc = "empty-list"
 	case 6:
-		replace(seqNode(strNode("a"), strNode("b=c")))
+		if r.Chance("m-list-ts", 1, 3) {
+			replace(seqNode(strNode("a"), yscalar("!!timestamp", "2001-12-14")))
+		} else {
+			replace(seqNode(strNode("a"), strNode("b=c")))
+		}
 		desc = "list"
 	case 7:
 		replace(seqNode(mapNode(strNode("k"), strNode("v")), mapNode(strNode("source"), yscalar("!!int", "12"), strNode("target"), seqNode())))
@@ -246,6 +264,10 @@ func mutateYAML(r *zsimrt.Run, txt string) (string, string, bool) {
 		t = a
 		nn := *a.n
 		nn.Value = b.n.Value
+		if r.Chance("m-odd-key", 1, 4) {
+			// a name no pattern of the schema matches
+			nn.Value = []string{"a b", "odd name!", "", "x\n", "1", "a.b"}[r.Draw("m-odd-key-v", 6)]
+		}
 		a.parent.Content[a.idx] = &nn
 		desc = "rename"
 	case 15, 16:
@@ -344,4 +366,110 @@ func addDenseDAG(g *G, L *Layout) {
 	L.Files[L.Main[0]] = b.String()
 	L.Main = L.Main[:1]
 	L.Features = append(L.Features, fmt.Sprintf("dense-dag:%dx%d", layers, width))
+}
+
+// broadcastAttr: desc ends in "@.section.entry.attr..." (section = services, networks, volumes, secrets, configs). The
+// value now found at section.entry.attr in file f is copied under the same attribute of every other entry of
+// that section in every YAML file of the layout. Returns the number of entries written.
+func broadcastAttr(L *Layout, files []string, f, desc string) int {
+	i := strings.Index(desc, "@.")
+	if i < 0 {
+		return 0
+	}
+	segs := strings.Split(strings.TrimSuffix(desc[i+2:], "<key>"), ".")
+	if len(segs) < 3 {
+		return 0
+	}
+	section, entry, attr := segs[0], segs[1], strings.TrimSuffix(segs[2], "[]")
+	attr = strings.TrimSuffix(attr, "<key>")
+	switch section {
+	case "services", "networks", "volumes", "secrets", "configs":
+	default:
+		return 0
+	}
+	get := func(m *yaml.Node, k string) *yaml.Node {
+		if m == nil || m.Kind != yaml.MappingNode {
+			return nil
+		}
+		for j := 0; j+1 < len(m.Content); j += 2 {
+			if m.Content[j].Value == k {
+				return m.Content[j+1]
+			}
+		}
+		return nil
+	}
+	var src yaml.Node
+	if yaml.Unmarshal([]byte(L.Files[f]), &src) != nil || len(src.Content) != 1 {
+		return 0
+	}
+	val := get(get(get(src.Content[0], section), entry), attr)
+	if val == nil {
+		return 0
+	}
+	n := 0
+	for _, g := range files {
+		var doc yaml.Node
+		if yaml.Unmarshal([]byte(L.Files[g]), &doc) != nil || len(doc.Content) != 1 {
+			continue
+		}
+		sec := get(doc.Content[0], section)
+		if sec == nil || sec.Kind != yaml.MappingNode {
+			continue
+		}
+		changed := false
+		for j := 0; j+1 < len(sec.Content); j += 2 {
+			e := sec.Content[j+1]
+			if e.Kind != yaml.MappingNode || (g == f && sec.Content[j].Value == entry) {
+				continue
+			}
+			done := false
+			for k := 0; k+1 < len(e.Content); k += 2 {
+				if e.Content[k].Value == attr {
+					e.Content[k+1] = copyNode(val, 0)
+					done = true
+				}
+			}
+			if !done {
+				e.Content = append(e.Content, strNode(attr), copyNode(val, 0))
+			}
+			changed = true
+			n++
+		}
+		if changed {
+			if out, err := yaml.Marshal(&doc); err == nil {
+				if L.Stdin != "" && L.Files[g] == L.Stdin {
+					L.Stdin = string(out)
+				}
+				L.Files[g] = string(out)
+			}
+		}
+	}
+	return n
+}
+
+// addLongInput: inputs that are long in one dimension only - an env file with very many comment or blank lines,
+// a value with deeply nested interpolation defaults. Nothing to refuse; the load has to finish within the budgets
+// (recursion proportional to the number of lines is how a stack is exhausted).
+func addLongInput(g *G, L *Layout) {
+	var envs []string
+	for f := range L.Files {
+		if strings.HasSuffix(f, ".env") {
+			envs = append(envs, f)
+		}
+	}
+	sort.Strings(envs)
+	if len(envs) > 0 && g.chance("long-env", 2, 3) {
+		f := envs[g.n("long-env-file", len(envs))]
+		n := 20000 + g.n("long-env-lines", 100000)
+		line := []string{"#\n", "\n", "# a comment\n", "   \n"}[g.n("long-env-kind", 4)]
+		L.Files[f] = strings.Repeat(line, n) + L.Files[f]
+		L.Features = append(L.Features, fmt.Sprintf("long-env:%d", n))
+		return
+	}
+	depth := 200 + g.n("nest-depth", 3000)
+	v := strings.Repeat("${UNSET_A:-", depth) + "x" + strings.Repeat("}", depth)
+	L.Files[L.Main[0]] = "services:\n  nested:\n    image: \"" + v + "\"\n"
+	L.Main = L.Main[:1]
+	L.Opts.SkipInterpolation = false
+	L.Features = append(L.Features, fmt.Sprintf("nested-interpolation:%d", depth))
 }
